@@ -15,7 +15,37 @@ import torch
 
 from .. import decode_lib as dl
 from .. import verdict
-from .c11 import adapters, small_family
+from .c11 import adapters as _base_adapters, small_family as _base_family
+
+
+def adapters():
+    """TSP, CVRP (from C11) + an environment with POSITIVE rewards (OP) and one with time windows (CVRPTW)"""
+    from ..envs.cvrptw import CVRPTW
+    from ..envs.op import OP
+
+    out = _base_adapters()
+    for cls in (OP, CVRPTW):
+        a = cls()
+        a.tag = a.name
+        out.append(a)
+    return out
+
+
+def dl_group(ad, insts):
+    g = {}
+    for i in insts:
+        g.setdefault(ad.group_key(i), []).append(i)
+    return g
+
+
+def small_family(ad, tier):
+    if ad.name in ("tsp", "cvrp"):
+        return _base_family(ad, tier)
+    fam = ad.family("quick", 0)
+    fam = fam[:: max(1, len(fam) // (6 if tier == "quick" else 16))]
+    for k, i in enumerate(fam):
+        i["id"] = k + 1
+    return fam
 
 warnings.filterwarnings("ignore")
 
@@ -30,7 +60,17 @@ def run(tier, seed):
         maxlen = ad.step_cap(fam[0])
         policy = dl.make_policy(ad.name)
         for W in ((2, 3) if tier == "quick" else (2, 3, 4)):
-            fam_w = [i for i in fam if i["N"] >= W] if ad.name == "tsp" else [i for i in fam if i["N"] >= W]
+            fam_w = [i for i in fam if i["N"] >= W]
+            if ad.name == "op":
+                # beams are pairwise distinct only "whenever their forced first moves are distinct": keep the instances with
+                # at least W feasible first customers (otherwise the library cycles through the feasible starts and the
+                # returned beams legitimately coincide)
+                keep = []
+                for key, insts in dl_group(ad, fam_w).items():
+                    env0, td0 = dl.reset_with_ids(ad, insts)
+                    nfeas = td0["action_mask"][:, 1:].sum(-1).tolist()
+                    keep += [i for i, nf in zip(insts, nfeas) if nf >= W]
+                fam_w = keep
             if not fam_w:
                 continue
             model, r = dl.model_beams(ad, fam_w, W, maxlen, "%s_w%d" % (ad.name, W))
